@@ -429,8 +429,12 @@ func writeComputedFieldExpression(w *formatting.IndentedWriter, expression dsl.E
 		case *dsl.BinaryExpression:
 			tail.Run(func() {
 				requiresParentheses := false
-				if l, ok := t.Left.(*dsl.BinaryExpression); ok && l.Operator.Precedence() < t.Operator.Precedence() {
-					requiresParentheses = true
+				if l, ok := t.Left.(*dsl.BinaryExpression); ok {
+					// ** is right-associative in Python: (a ** b) ** c must keep its parentheses
+					if l.Operator.Precedence() < t.Operator.Precedence() ||
+						(t.Operator == dsl.BinaryOpPow && l.Operator.Precedence() == t.Operator.Precedence()) {
+						requiresParentheses = true
+					}
 				}
 
 				if requiresParentheses {
